@@ -47,6 +47,8 @@ func (r *Run) fault(k CallKey) error {
 		return &ggql.Error{Base: fmt.Errorf("%w ext at %s", ErrInjected, k), Extensions: map[string]interface{}{"code": "E1"}}
 	case FaultValErr:
 		return fmt.Errorf("%w (with a value) at %s", ErrInjected, k)
+	case FaultWrapped:
+		return fmt.Errorf("while resolving %s: %w", k, ggql.Errors{fmt.Errorf("%w one at %s", ErrInjected, k), fmt.Errorf("%w two at %s", ErrInjected, k)})
 	case FaultShared:
 		// a sentinel: the SAME *ggql.Error instance for every failing call of the run
 		if r.Sentinel == nil {
